@@ -12,7 +12,10 @@ from tools.cxx2c import Unsupported
 MEM_KB = 12 * 1024 * 1024
 CBMC_CHECKS = ['--bounds-check', '--pointer-check', '--div-by-zero-check', '--signed-overflow-check',
                '--unsigned-overflow-check', '--undefined-shift-check', '--pointer-overflow-check',
-               '--conversion-check', '--no-malloc-may-fail']
+               '--no-malloc-may-fail', '--object-bits', '12']
+
+
+BOUNDED_CHECKS = ['--bounds-check', '--pointer-check', '--div-by-zero-check', '--signed-overflow-check', '--no-malloc-may-fail', '--object-bits', '12']
 
 
 class Break(Exception):
@@ -50,6 +53,8 @@ def lower_unit(unit, workdir):
     try:
         docs = cxx2c.ast_dump(unit.SRC, unit.AST_FILTER, workdir, getattr(unit, 'CLANG_ARGS', ()))
         prof = unit.Profile(set(unit.FUNCS), set(unit.THROWING))
+        if hasattr(prof, 'prepare'):
+            prof.prepare(docs, workdir)
         if hasattr(unit, 'lower'):
             return unit.lower(docs, prof)
         protos, bodies = [], []
@@ -79,9 +84,9 @@ def splice(unit, low, harnesses, out_c, mode='proof'):
         return re.sub(r'LIT\(("(?:[^"\\]|\\.)*")\)', rep, text)
 
     lines = ['#include "%s"' % unit.SHIM]
-    lines += subst(unit.GHOSTS).split('\n')
     if hasattr(prof, 'file_prelude'):
         lines += prof.file_prelude()
+    lines += subst(unit.GHOSTS).split('\n')
     lines += low['protos'] + ['']
     labels = {}   # label -> props
     # binding checks: loops and locals named by the sidecar must exist (per function; a break
@@ -112,8 +117,16 @@ def splice(unit, low, harnesses, out_c, mode='proof'):
             fn = parts[0]
             spec = unit.CONTRACTS.get(fn, {})
             if kind == 'CONTRACT':
-                for (label, ckind, text, props) in spec.get('contract', []):
+                for clause in spec.get('contract', []):
+                    (label, ckind, text, props) = clause[:4]
+                    opts = clause[4] if len(clause) > 4 else {}
+                    # enforce_only: the clause is part of the contract only where the function is the one
+                    # being verified; leaving it out where the contract replaces a call assumes less (sound)
+                    if opts.get('enforce_only'):
+                        lines.append('#ifdef ENFORCING_%s' % fn)
                     lines.append('__CPROVER_%s(%s)%s' % (ckind, subst(text), ' /*L:%s*/' % label if label else ''))
+                    if opts.get('enforce_only'):
+                        lines.append('#endif')
                     if label:
                         labels[label] = props
             elif kind == 'PROLOGUE':
@@ -227,7 +240,7 @@ def run_harness(unit, h, src_c, workdir, label_by_line, mode='proof', solver=Non
     name = h['name'] + ('' if mode == 'proof' else '.bounded')
     base = os.path.join(workdir, name)
     entry = 'h_' + h['name']
-    defs = ['-DVERIF'] + ['-D' + f for f in h.get('flags', [])]
+    defs = ['-DVERIF', '-DENFORCING_' + h['fn']] + ['-D' + f for f in h.get('flags', [])]
     if mode == 'bounded':
         defs += ['-D' + d for d in h.get('bounded_defs', ['NMAX=2'])]
     t0 = time.time()
@@ -236,23 +249,26 @@ def run_harness(unit, h, src_c, workdir, label_by_line, mode='proof', solver=Non
     if rc != 0:
         raise Break('TOOL BREAK: goto-cc failed for %s/%s (see %s)\n%s' % (unit.NAME, name, base + '.gotocc.log', out[-1500:]))
     gi = ['goto-instrument', '--no-malloc-may-fail', '--dfcc', entry, '--enforce-contract', cn + h['fn']]
-    for r in h.get('replace', []):
-        gi += ['--replace-call-with-contract', cn + r]
+    for r in (h.get('replace', []) if mode == 'proof' else h.get('bounded_replace', [])):
+        gi += ['--replace-call-with-contract', r if r.startswith('bl_') else cn + r]
     if mode == 'proof':
         gi += ['--apply-loop-contracts']
     gi += [base + '.a.gb', base + '.b.gb']
     rc, out, _ = sh(gi, log=base + '.instrument.log', timeout=600)
     if rc != 0:
         raise Break('TOOL BREAK: goto-instrument failed for %s/%s (see %s)\n%s' % (unit.NAME, name, base + '.instrument.log', out[-1500:]))
-    cb = ['cbmc', base + '.b.gb', '--trace'] + CBMC_CHECKS + list(h.get('cbmc_args', []))
+    if mode == 'bounded':
+        # the bounded stand-in looks for a concrete counterexample to the function's own ensures
+        # clauses; it runs with the memory-safety checks only (stated in the evidence)
+        cb = ['cbmc', base + '.b.gb', '--trace'] + BOUNDED_CHECKS + ['--unwind', str(h.get('unwind', 6)), '--unwinding-assertions']
+    else:
+        cb = ['cbmc', base + '.b.gb', '--trace'] + CBMC_CHECKS + list(h.get('cbmc_args', []))
     for c in h.get('no_checks', []):
         if c in cb:
             cb.remove(c)
-    if mode == 'bounded':
-        cb += ['--unwind', str(h.get('unwind', 6)), '--unwinding-assertions']
     if solver:
         cb += solver
-    to = h.get('timeout', 600)
+    to = h.get('timeout', 600) if mode == 'proof' else h.get('bounded_timeout', 600)
     rc, out, dt = sh(cb, log=base + '.cbmc.log', timeout=to)
     res = parse_cbmc(out, src_c)
     status = 'ok'
